@@ -8,6 +8,10 @@ class OtherError(Exception):
     pass
 
 
+class OtherOSError(OtherError, OSError):
+    """a non-transient failure that is an OSError but not a TimeoutError (FileNotFoundError, PermissionError, ...)"""
+
+
 def _problem(script, constraints=None, maximize=False, n=2):
     from artap.problem import Problem
 
@@ -29,6 +33,9 @@ def _problem(script, constraints=None, maximize=False, n=2):
             if step == "O":
                 self.ghost_nontransient += 1
                 raise OtherError("scripted")
+            if step == "F":
+                self.ghost_nontransient += 1
+                raise OtherOSError("scripted (an OSError that is not a TimeoutError)")
             self.ghost_last_ret = [sum(individual.vector) + 0.123456789123, individual.vector[0] * 3.0]
             individual.ghost_evals = getattr(individual, "ghost_evals", 0) + 1
             return self.ghost_last_ret
@@ -77,6 +84,8 @@ def _scripts():
             out.append(list(fails) + ["ok"])
             if k < 5:
                 out.append(list(fails) + ["O"])
+                if k <= 2:
+                    out.append(list(fails) + ["F"])
     return out
 
 
